@@ -9,7 +9,9 @@ ALL_HAVE = ['ASINH', 'ACOSH', 'ATANH', 'EXPM1', 'LOG1P', 'ATAN2', 'HYPOT', 'CSQR
 
 def _configs(tier):
     # the fallback bodies compiled by clang 14 (half of the cases): compiler-conditional code and unspecified evaluation order
-    out = [dict(name='all-off-f64-clang', real=8, have=[], libcc='clang', nworkers=3, of=6)]
+    out = [dict(name='all-off-f64-clang', real=8, have=[], libcc='clang', nworkers=3, of=6),
+           # ... and with the optimisation level and aliasing rules of the release build
+           dict(name='all-off-f64-o2', real=8, have=[], libflavour='san-o2', libdrop=['-fno-strict-aliasing'], nworkers=3, of=6)]
     reals = [(8, 'f64'), (4, 'f32')]
     if tier == 'quick':
         out.append(dict(name='all-on-f64', real=8, have=ALL_HAVE))
